@@ -8,15 +8,15 @@ namespace Exo.PrintStmt
 open Exo Exo.Print
 
 def noNegAcc : WAcc → Bool
-  | .pt e => noNegConst e
-  | .iv lo hi => noNegConst lo && noNegConst hi
+  | .pt e => noNegX e
+  | .iv lo hi => noNegX lo && noNegX hi
 
 def noNegAccs : List WAcc → Bool
   | [] => true
   | a :: as => noNegAcc a && noNegAccs as
 
 def noNegArg : PArg → Bool
-  | .e e => noNegConst e
+  | .e e => noNegX e
   | .win _ accs => noNegAccs accs
 
 def noNegArgs : List PArg → Bool
@@ -26,13 +26,13 @@ def noNegArgs : List PArg → Bool
 mutual
 def noNegStmt : PStmt → Bool
   | .pass => true
-  | .assign _ idx rhs => noNegConstL idx && noNegConst rhs
-  | .reduce _ idx rhs => noNegConstL idx && noNegConst rhs
-  | .writeCfg _ _ rhs => noNegConst rhs
-  | .alloc _ _ shape _ => noNegConstL shape
+  | .assign _ idx rhs => noNegXL idx && noNegX rhs
+  | .reduce _ idx rhs => noNegXL idx && noNegX rhs
+  | .writeCfg _ _ rhs => noNegX rhs
+  | .alloc _ _ shape _ => noNegXL shape
   | .window _ _ accs => noNegAccs accs
-  | .loop _ _ lo hi body => noNegConst lo && noNegConst hi && noNegS body
-  | .ite c body orelse => noNegConst c && noNegS body && noNegS orelse
+  | .loop _ _ lo hi body => noNegX lo && noNegX hi && noNegS body
+  | .ite c body orelse => noNegX c && noNegS body && noNegS orelse
   | .call _ args => noNegArgs args
 def noNegS : List PStmt → Bool
   | [] => true
@@ -41,10 +41,10 @@ end
 
 theorem normAcc_id (a : WAcc) (h : noNegAcc a = true) : normAcc a = a := by
   cases a with
-  | pt e => simp only [noNegAcc] at h; simp [normAcc, norm_id e h]
+  | pt e => simp only [noNegAcc] at h; simp [normAcc, normX_id e h]
   | iv lo hi =>
     simp only [noNegAcc, Bool.and_eq_true] at h
-    simp [normAcc, norm_id lo h.1, norm_id hi h.2]
+    simp [normAcc, normX_id lo h.1, normX_id hi h.2]
 
 theorem normAccs_id : ∀ as : List WAcc, noNegAccs as = true → normAccs as = as
   | [], _ => rfl
@@ -54,7 +54,7 @@ theorem normAccs_id : ∀ as : List WAcc, noNegAccs as = true → normAccs as = 
 
 theorem normArg_id (a : PArg) (h : noNegArg a = true) : normArg a = a := by
   cases a with
-  | e e => simp only [noNegArg] at h; simp [normArg, norm_id e h]
+  | e e => simp only [noNegArg] at h; simp [normArg, normX_id e h]
   | win x accs => simp only [noNegArg] at h; simp [normArg, normAccs_id accs h]
 
 theorem normArgs_id : ∀ as : List PArg, noNegArgs as = true → normArgs as = as
@@ -68,25 +68,25 @@ theorem normStmt_id : ∀ s : PStmt, noNegStmt s = true → normStmt s = s
   | .pass, _ => rfl
   | .assign x idx rhs, h => by
     simp only [noNegStmt, Bool.and_eq_true] at h
-    simp [normStmt, normL_id idx h.1, norm_id rhs h.2]
+    simp [normStmt, normXL_id idx h.1, normX_id rhs h.2]
   | .reduce x idx rhs, h => by
     simp only [noNegStmt, Bool.and_eq_true] at h
-    simp [normStmt, normL_id idx h.1, norm_id rhs h.2]
+    simp [normStmt, normXL_id idx h.1, normX_id rhs h.2]
   | .writeCfg c f rhs, h => by
     simp only [noNegStmt] at h
-    simp [normStmt, norm_id rhs h]
+    simp [normStmt, normX_id rhs h]
   | .alloc x ty shape mem, h => by
     simp only [noNegStmt] at h
-    simp [normStmt, normL_id shape h]
+    simp [normStmt, normXL_id shape h]
   | .window w x accs, h => by
     simp only [noNegStmt] at h
     simp [normStmt, normAccs_id accs h]
   | .loop par i lo hi body, h => by
     simp only [noNegStmt, Bool.and_eq_true] at h
-    simp [normStmt, norm_id lo h.1.1, norm_id hi h.1.2, normS_id body h.2]
+    simp [normStmt, normX_id lo h.1.1, normX_id hi h.1.2, normS_id body h.2]
   | .ite c body orelse, h => by
     simp only [noNegStmt, Bool.and_eq_true] at h
-    simp [normStmt, norm_id c h.1.1, normS_id body h.1.2, normS_id orelse h.2]
+    simp [normStmt, normX_id c h.1.1, normS_id body h.1.2, normS_id orelse h.2]
   | .call f args, h => by
     simp only [noNegStmt] at h
     simp [normStmt, normArgs_id args h]
